@@ -117,8 +117,9 @@ package transport_controller
 //@ func (*transportHandler).HandleLinkLost
 //@   noframe
 // the resolvers that report links sleep on the controller's broadcast: a section that removes a link
-// has to wake them (structural clause: the callback calls `broadcast`, its only function-valued call)
+// wakes them
 //@   assert at call! funcvalue: true
+//@   cs Controller.bcast ensures (exists u uint64 :: old(u in self.links) && !(u in self.links)) ==> bcastCalls[self] > old(bcastCalls[self])
 //@   requires h.c != nil && lnk != nil
 //@   cs Controller.bcast ensures forall u uint64 trigger dom(self.links, u) :: old(u in self.links) && !(u in self.links) ==> old(self.links[u]).lnk == lnk
 //@   cs Controller.bcast ensures forall u uint64 trigger dom(self.links, u) :: (u in self.links) ==> old(u in self.links) && self.links[u] == old(self.links[u])
